@@ -59,27 +59,35 @@ def main():
             rct, ot = sh('/venv/bin/python -m pytest -q -p no:cacheprovider EoN/tests %s --timeout=600' % tests, cwd=wt, timeout=2400)
             out['pinned_tests'] = {'selector': tests, 'rc': rct, 'tail': ot[-300:]}
         out['ran'].append('worktree %s: git apply --check; demo without/with patch%s' % (wt, '; pytest ' + tests if tests else ''))
+        # run the checks against the patched tree.  Default: the scratch worktree through EON_REPO (the checks import the
+        # repository from $EON_REPO, default /repo), so that long background runs on /repo are not disturbed; with --in-repo the
+        # patch is applied to /repo itself (git -C /repo apply) and undone straight afterwards (git -C /repo checkout -- .)
+        in_repo = '--in-repo' in sys.argv
+        env = None
+        if in_repo:
+            st, o = sh('git -C /repo status --porcelain --untracked-files=no')
+            if o.strip():
+                out['error'] = '/repo has local modifications; not applying'
+                return finish(out, patch, demo)
+            sh('git -C /repo apply %s' % patch)
+        else:
+            env = {'EON_REPO': wt}
+        try:
+            res = {}
+            for c in checks:
+                t0 = time.time()
+                rc, o = sh('./check %s --tier quick' % c, cwd=VERIF, timeout=3000, env=env)
+                lines = [l for l in o.splitlines() if l.startswith('VIOLATION') or l.startswith('  entry=') or l.startswith('INCONCLUSIVE') or l.startswith('KNOWN')]
+                res[c] = {'exit': rc, 'seconds': round(time.time() - t0, 1), 'lines': [l[:300] for l in lines[:4]]}
+            out['checks'] = res
+            out['detected_by'] = [c for c, r in res.items() if r['exit'] == 1]
+            out['ran'].append(('git -C /repo apply; ' if in_repo else 'EON_REPO=<patched scratch worktree> ') + ', '.join('./check %s --tier quick' % c for c in checks) + ('; git -C /repo checkout -- .' if in_repo else ''))
+        finally:
+            if in_repo:
+                sh('git -C /repo checkout -- .')
     finally:
         sh('git -C /repo worktree remove --force %s' % wt)
         shutil.rmtree(wt, ignore_errors=True)
-    # run the checks against /repo with the patch applied
-    st, o = sh('git -C /repo status --porcelain --untracked-files=no')
-    if o.strip():
-        out['error'] = '/repo has local modifications; not applying'
-        return finish(out, patch, demo)
-    sh('git -C /repo apply %s' % patch)
-    try:
-        res = {}
-        for c in checks:
-            t0 = time.time()
-            rc, o = sh('./check %s --tier quick' % c, cwd=VERIF, timeout=3000)
-            lines = [l for l in o.splitlines() if l.startswith('VIOLATION') or l.startswith('  entry=') or l.startswith('INCONCLUSIVE') or l.startswith('KNOWN')]
-            res[c] = {'exit': rc, 'seconds': round(time.time() - t0, 1), 'lines': [l[:300] for l in lines[:4]]}
-        out['checks'] = res
-        out['detected_by'] = [c for c, r in res.items() if r['exit'] == 1]
-        out['ran'].append('git -C /repo apply; ' + ', '.join('./check %s --tier quick' % c for c in checks) + '; git -C /repo checkout -- .')
-    finally:
-        sh('git -C /repo checkout -- .')
     return finish(out, patch, demo)
 
 
